@@ -169,6 +169,24 @@ def check_config(cfg, w, rep):
         if v.rule in C08_RULES:
             rep.violation("f:%s" % k, v.msg, loc=v.loc, config=cfg, rule="f/" + v.rule)
 
+    # ---- (g) no writer (nor any other non-removal entry point) can delete shared content ----
+    check_who_may_remove_content(cfg, w, rep, "g")
+
+    # ---- (h) what a rejected writer does leave behind — the content file its close() published before the checks ran — is a
+    #      valid content file (the bytes whose digest is its address, no padding): otherwise a rejected write corrupts every
+    #      entry that shares that address. The staging clauses of C03 (f, g) are re-checked here. ----
+    from . import c03
+    sub = Report("C03")
+    c03.check_config(cfg, w, sub)
+    H = ("f-preallocation", "f-trim-before-publish", "f-staging-sequential", "g/a-digest-sink", "g/a-whole-sink", "g/d-address")
+    for (c_, rule, k, desc, ok) in sub.obligations:
+        if rule in H and ok:
+            rep.ob(cfg, "h/" + rule, k, desc)
+    for k, v in sub.violations.items():
+        if v.rule in H:
+            rep.violation("h:%s" % k, "a rejected or abandoned write could leave an invalid file under a content address — " + v.msg, loc=v.loc,
+                          config=cfg, rule="h/" + v.rule, witness=v.witness)
+
     # ---- (e) commit/close consume the writer ----
     n_c = 0
     for p in list(R.commits) + list(R.content_closes):
